@@ -51,6 +51,7 @@ type c05Case struct {
 	Raw    ev.B    `json:"raw,omitempty"`    // stream: payload bytes (Framed) or the whole stream
 	Framed bool    `json:"framed,omitempty"` // stream: Raw is a payload, framed with a correct header
 	BigLen int     `json:"biglen,omitempty"` // big: payload length around the size limit
+	Src    string  `json:"src,omitempty"`    // "fuzz": case decoded from native fuzzer bytes (FuzzC05)
 }
 
 func gMagic() *rapid.Generator[uint32] {
@@ -295,7 +296,44 @@ func judge(ctx *ev.Ctx, stream []byte, magic uint32, tag string) string {
 	if !reflect.DeepEqual(msg, ref) {
 		ctx.Failf("%s: ReadMessage result differs from decoding the payload as %s: %s", tag, kind, flatImplSafe(msg).diff(flatImplSafe(ref)))
 	}
+	reframe(ctx, msg, kind, magic, tag)
 	return "accept"
+}
+
+// keyFree: kinds without public keys / signature programs. Any value of these kinds that a decoder
+// returns can be written again, so "survives framing unchanged" is judged for every accepted frame.
+// (Decoded headers / transactions / consensus payloads may hold keys in a non-canonical encoding or
+// signature entries without keys, which the writers normalise or refuse; those are judged on
+// generated values in the roundtrip mode only.)
+func keyFree(kind string) bool {
+	switch kind {
+	case "headers", "block", "tx", "consensus":
+		return false
+	}
+	return true
+}
+
+// reframe: an accepted message, written with WriteMessage and read back, is the same message.
+func reframe(ctx *ev.Ctx, msg types.Message, kind string, magic uint32, tag string) {
+	if !keyFree(kind) {
+		return
+	}
+	sink := common.NewZeroCopySink(nil)
+	var err error
+	if p := ev.Catch(func() { err = types.WriteMessage(sink, msg) }); p != "" || err != nil {
+		ctx.Failf("%s: the accepted %s message cannot be framed again: %v %s", tag, kind, err, p)
+	}
+	var msg2 types.Message
+	if p := ev.Catch(func() { msg2, _, err = types.ReadMessage(bytes.NewReader(sink.Bytes())) }); p != "" {
+		reportPanic(ctx, tag+" (re-framed)", p, sink.Bytes())
+		return
+	}
+	if err != nil {
+		ctx.Failf("%s: the accepted %s message, framed again by WriteMessage, is refused: %v (frame %x)", tag, kind, err, clip(sink.Bytes()))
+	}
+	if !reflect.DeepEqual(msg2, msg) {
+		ctx.Failf("%s: the accepted %s message changes when framed again: %s", tag, kind, flatImplSafe(msg2).diff(flatImplSafe(msg)))
+	}
 }
 
 func flatImplSafe(m types.Message) (f flat) {
@@ -519,6 +557,9 @@ func truncated(m pMsg) pMsg {
 func runC05(ctx *ev.Ctx, c c05Case) {
 	config.DefConfig.P2PNode.NetworkMagic = c.Magic
 	ctx.Label("mode:" + c.Mode)
+	if c.Src != "" {
+		ctx.Label("src:" + c.Src)
+	}
 	for _, m := range c.Msgs {
 		if !wellFormed(m) {
 			ctx.Label("malformed-case")
@@ -772,4 +813,96 @@ func TestC05(t *testing.T) {
 		}
 	}
 	ev.Drive(t, "C05", c05Rule, genC05, runC05)
+}
+
+// ---------------------------------------------------------------------------------------------
+// native coverage-guided fuzzing as a second generator of TestC05's "stream" mode
+
+const fuzzMagic = 0x8c77ab60
+
+// decodeFuzzC05 maps fuzzer bytes to a stream-mode case. Byte 0 selects:
+//
+//	0      the rest is the stream handed to ReadMessage exactly as it is (header + payload)
+//	1      the same, with the first four bytes overwritten by the right magic
+//	2..17  the rest is a payload of kind kinds[sel-2]; it is framed with a correct length and checksum,
+//	       so the mutations land in that kind's payload decoder
+//
+// other values wrap around. A raw stream whose header claims 1 MiB..limit without supplying the
+// payload is skipped: ReadMessage allocates and clears the claim first (milliseconds per input,
+// which starves the campaign); that class is covered by the hdr mode and the grid of TestC05.
+func decodeFuzzC05(d []byte) (c05Case, bool) {
+	if len(d) < 1 {
+		return c05Case{}, false
+	}
+	sel := int(d[0]) % (2 + len(kinds))
+	rest := append([]byte(nil), d[1:]...)
+	c := c05Case{Mode: "stream", Magic: fuzzMagic, Raw: rest, Src: "fuzz"}
+	if sel >= 2 {
+		c.Framed = true
+		c.Cmd = ev.B(kinds[sel-2])
+		return c, true
+	}
+	if sel == 1 {
+		c.Ops = []hdrOp{{K: "magic", V: fuzzMagic}}
+	}
+	if len(rest) >= hdrLen {
+		if claim := uint64(binary.LittleEndian.Uint32(rest[16:20])); claim > 1<<20 && claim <= maxPayload && uint64(len(rest)-hdrLen) < claim {
+			return c05Case{}, false
+		}
+	}
+	return c, true
+}
+
+func FuzzC05(f *testing.F) {
+	raw := func(stream []byte) { f.Add(append([]byte{0}, stream...)) }
+	pay := func(kind string, payload []byte) {
+		for i, k := range kinds {
+			if k == kind {
+				f.Add(append([]byte{byte(2 + i)}, payload...))
+			}
+		}
+	}
+	// one genuine small frame per kind, as a raw stream and as a payload behind the repaired header
+	for _, k := range kinds {
+		p := refPayload(canon(k))
+		raw(refFrame(fuzzMagic, []byte(k), p))
+		pay(k, p)
+	}
+	// hostile headers
+	hdr := func(cmd string, ln uint32, payload []byte) []byte {
+		s := refFrame(fuzzMagic, []byte(cmd), payload)
+		binary.LittleEndian.PutUint32(s[16:20], ln)
+		return s
+	}
+	raw(hdr("ping", 0xFFFFFFFF, refPayload(canon("ping"))))
+	raw(hdr("addr", maxPayload+1, nil))
+	raw(hdr("getaddr", 1, nil))
+	raw(hdr("verack", 0, []byte{1}))
+	raw(refFrame(fuzzMagic+1, []byte("ping"), refPayload(canon("ping"))))
+	raw(refFrame(fuzzMagic, []byte("pingpong"), refPayload(canon("ping"))))
+	raw(refFrame(fuzzMagic, []byte("getaddr"), nil)[:hdrLen-1])
+	f.Add(append([]byte{1}, refFrame(0, []byte("disconnect"), nil)...))
+	// hostile counts: fixed-width counts and 0xFD / 0xFE / 0xFF var-uint prefixes at every count /
+	// length field of the canonical payloads
+	u64 := func(v uint64) []byte { return binary.LittleEndian.AppendUint64(nil, v) }
+	for _, v := range []uint64{1 << 63, 1 << 62, 1<<62 + 1, 3 << 62, 1<<64 - 1, 65, 1 << 32} {
+		pay("addr", u64(v))
+		pay("addr", append(u64(v), refPayload(canon("addr"))[8:]...))
+	}
+	for _, v := range []uint32{0xFFFFFFFF, 0x80000000, 65, 3} {
+		pay("inv", append([]byte{2}, binary.LittleEndian.AppendUint32(nil, v)...))
+		pay("headers", binary.LittleEndian.AppendUint32(nil, v))
+		pay("headers", append(binary.LittleEndian.AppendUint32(nil, v), refPayload(canon("headers"))[4:]...))
+	}
+	for _, k := range []string{"tx", "block", "headers", "consensus", "version"} {
+		e := refPayloadEnc(canon(k))
+		for i := range e.marks {
+			for _, v := range []uint64{0xFD, 0xFFFF, 0x10000, 1 << 32, 1 << 63, 1<<64 - 1} {
+				pay(k, applyPMuts(e.b, e.marks, []pMut{{K: "varp", Mark: true, Off: i, V: v}}))
+			}
+		}
+	}
+	pay("verack", []byte{2})
+	pay("version", refPayload(canon("version"))[:76])
+	ev.Fuzz(f, "C05", "TestC05", decodeFuzzC05, runC05)
 }
